@@ -486,40 +486,50 @@ Definition new_log (id : N) (entries heads : list fentry) : loaded :=
 
 (* Each loader is a function of the fetch result [fetched] (any terminal result list of the
    fetcher started with [*_starts] and length [*_fetch_len]); [n < 0] stands for "no limit"
-   (Length = nil or negative). *)
+   (Length = nil or negative).  The definitions follow log_io.go as of commit ba56479 (the
+   length-limited loaders repair); the behaviour before that commit is kept below as
+   [*_before_fix] for the regression witnesses of Props/C10.v. *)
+
+(* log_io.go lastEntries: the last n entries (none when n <= 0, all when n >= len) *)
+Definition last_n {A} (n : Z) (l : list A) : list A :=
+  skipn (Nat.sub (length l) (Z.to_nat n)) l.
+
+(* the head selection of fromMultihash + NewFromMultihash: manifest heads that were loaded *)
+Definition multihash_heads (mheads : list N) (entries : list fentry) : list fentry :=
+  let heads := flat_map (fun e => map (fun _ => fe_hash e)
+                                      (filter (fun h => N.eqb h (fe_hash e)) mheads)) entries in
+  let emap := ordered_map entries in
+  flat_map (fun h => match find_hash h emap with Some e => [e] | None => [] end) heads.
 
 (* fromMultihash + NewFromMultihash.  mheads = heads in the manifest *)
 Definition multihash_fetch_len (n : Z) : Z := if n <? 0 then -1 else n.
 Definition load_multihash (id : N) (mheads : list N) (n : Z) (fetched : list fentry) : loaded :=
-  let entries := if -1 <? n then entry_slice (sort_go cmp_lww false fetched) (- n) else fetched in
-  let heads := flat_map (fun e => map (fun _ => fe_hash e)
-                                      (filter (fun h => N.eqb h (fe_hash e)) mheads)) entries in
-  let emap := ordered_map entries in
-  let heads' := flat_map (fun h => match find_hash h emap with Some e => [e] | None => [] end) heads in
-  new_log id entries heads'.
+  let entries := if -1 <? n then last_n n (sort_go cmp_lww false fetched) else fetched in
+  new_log id entries (multihash_heads mheads entries).
 
 (* fromEntryHash + NewFromEntryHash.  the fetcher gets options.Length, the trim max(n,1) *)
 Definition entryhash_fetch_len (n : Z) : Z := if n <? 0 then -1 else n.
 Definition load_entryhash (id : N) (n : Z) (fetched : list fentry) : loaded :=
   let length := if -1 <? n then Z.max n 1 else -1 in
-  let entries := if -1 <? length then entry_slice (sort_go cmp_lww false fetched) (- length)
+  let entries := if -1 <? length then last_n length (sort_go cmp_lww false fetched)
                  else fetched in
   new_log id entries [].
 
-(* fromJSON + NewFromJSON: sorts, never trims, ignores the JSON heads *)
+(* fromJSON + NewFromJSON: sorts, trims to Length, ignores the JSON heads *)
 Definition json_fetch_len (n : Z) : Z := if n <? 0 then -1 else n.
 Definition load_json (id : N) (n : Z) (fetched : list fentry) : loaded :=
-  new_log id (sort_go cmp_clock false fetched) [].
+  let sorted := sort_go cmp_clock false fetched in
+  new_log id (if -1 <? n then last_n n sorted else sorted) [].
 
-(* fromEntry + NewFromEntry *)
+(* fromEntry + NewFromEntry: every supplied entry, then the most recent of the others *)
 Definition entry_fetch_len (n : Z) (source : list fentry) : Z :=
   if -1 <? n then Z.max n (zlen source) else -1.
 Definition from_entry_values (n : Z) (source fetched : list fentry) : list fentry :=
   let length := entry_fetch_len n source in
-  let uniques := sort_go cmp_clock false (ordered_map (source ++ fetched)) in
-  let sliced := if -1 <? length then entry_slice uniques (- length) else uniques in
-  let missing := difference sliced source in
-  missing ++ entry_slice_range sliced (zlen missing) (zlen sliced).
+  let src := ordered_map source in
+  let others := sort_go cmp_clock false
+                  (filter (fun e => negb (has_hash (fe_hash e) src)) (ordered_map fetched)) in
+  if -1 <? length then src ++ last_n (length - zlen src) others else src ++ others.
 Definition load_entry (n : Z) (source fetched : list fentry) : option loaded :=
   let result := from_entry_values n source fetched in
   match last_opt result with
@@ -527,34 +537,21 @@ Definition load_entry (n : Z) (source fetched : list fentry) : option loaded :=
   | None => None                        (* result[len(result)-1] panics: index out of range *)
   end.
 
-(* ---- repaired variants (see notes/C10.md; NOT the current code) ---- *)
+(* ---- the loaders BEFORE commit ba56479 (regression witnesses only; not the current code) ---- *)
 
-(* keep the last n of l (n >= 0); n = 0 keeps nothing *)
-Definition last_n {A} (n : Z) (l : list A) : list A :=
-  skipn (Nat.sub (length l) (Z.to_nat n)) l.
+(* entrySlice(sorted, -n): n = 0 returned everything *)
+Definition load_multihash_before_fix (id : N) (mheads : list N) (n : Z) (fetched : list fentry) : loaded :=
+  let entries := if -1 <? n then entry_slice (sort_go cmp_lww false fetched) (- n) else fetched in
+  new_log id entries (multihash_heads mheads entries).
 
-Definition load_multihash_fixed (id : N) (mheads : list N) (n : Z) (fetched : list fentry) : loaded :=
-  let entries := if -1 <? n then last_n n (sort_go cmp_lww false fetched) else fetched in
-  let heads := flat_map (fun e => map (fun _ => fe_hash e)
-                                      (filter (fun h => N.eqb h (fe_hash e)) mheads)) entries in
-  let emap := ordered_map entries in
-  let heads' := flat_map (fun h => match find_hash h emap with Some e => [e] | None => [] end) heads in
-  new_log id entries heads'.
+(* never trimmed *)
+Definition load_json_before_fix (id : N) (n : Z) (fetched : list fentry) : loaded :=
+  new_log id (sort_go cmp_clock false fetched) [].
 
-Definition load_json_fixed (id : N) (n : Z) (fetched : list fentry) : loaded :=
-  let sorted := sort_go cmp_clock false fetched in
-  new_log id (if -1 <? n then last_n n sorted else sorted) [].
-
-(* keep every supplied entry, fill up with the most recent others *)
-Definition from_entry_values_fixed (n : Z) (source fetched : list fentry) : list fentry :=
+(* last-n window of everything, then missing sources put back in place of the oldest elements *)
+Definition from_entry_values_before_fix (n : Z) (source fetched : list fentry) : list fentry :=
   let length := entry_fetch_len n source in
-  let src := ordered_map source in
-  let others := sort_go cmp_clock false
-                  (filter (fun e => negb (has_hash (fe_hash e) src)) (ordered_map fetched)) in
-  if -1 <? length then src ++ last_n (length - zlen src) others else src ++ others.
-Definition load_entry_fixed (n : Z) (source fetched : list fentry) : option loaded :=
-  let result := from_entry_values_fixed n source fetched in
-  match last_opt result with
-  | Some l => Some (new_log (fe_logid l) result [])
-  | None => None
-  end.
+  let uniques := sort_go cmp_clock false (ordered_map (source ++ fetched)) in
+  let sliced := if -1 <? length then entry_slice uniques (- length) else uniques in
+  let missing := difference sliced source in
+  missing ++ entry_slice_range sliced (zlen missing) (zlen sliced).
